@@ -395,6 +395,46 @@ v("C09", "writer-object-aliased-in-a-local", RF,
   "        try:\n            next_avail_sample = _py_rf_write_hdf5.rf_write(\n                self._channelObj, arr, next_sample\n            )\n",
   "        try:\n            channel = self._channelObj\n            next_avail_sample = _py_rf_write_hdf5.rf_write(\n                channel, arr, next_sample\n            )\n",
   rules=["C09.R6"])
+v("C16", "rescan-removes-the-untracked", RB, "        deletions = inbuffer - ondisk\n", "        deletions = ondisk - inbuffer\n", rules=["C16.R8"])
+v("C16", "rescan-adds-only-after-deletions", RB, "        creations = ondisk - deletions\n", "        creations = inbuffer - deletions\n", rules=["C16.R8"])
+v("C16", "batch-add-stops-at-first-known", RB, "        for rec in records:\n            self._add_record(rec)\n",
+  "        for rec in records:\n            if rec.path in self.records:\n                break\n            self._add_record(rec)\n", rules=["C16.R8"])
+v("C16", "twin-rescan-with-set-methods", RB, "        deletions = inbuffer - ondisk\n", "        deletions = inbuffer.difference(ondisk)\n", expect="silent")
+v("C16", "moved-adds-before-removing", RB, "        self.remove_files([event.src_path])\n        self.add_files([event.dest_path])\n",
+  "        self.add_files([event.dest_path])\n        self.remove_files([event.src_path])\n", rules=["C16.R7"])
+v("C14", "walk-prunes-subdir-named-directories", LD, "            dirs.sort(reverse=reverse)\n",
+  "            dirs[:] = sorted((d for d in dirs if not _RE_SUBDIR.match(d)), reverse=reverse)\n", rules=["C14.R12"])
+v("C14", "twin-walk-list-resorted", LD, "            dirs.sort(reverse=reverse)\n", "            dirs[:] = sorted(dirs, reverse=reverse)\n", expect="silent")
+def _two(e1, e2):
+    def apply(d):
+        e1(d)
+        e2(d)
+    return apply
+
+
+V.append({"props": ["C05"], "name": "block-check-on-the-raw-array", "expect": "violation", "rules": ["C05.R8"], "apply": _two(
+    _edit(RF, "        if block_sample_arr[-1] >= arr.shape[0]:\n", "        if block_sample_arr[-1] >= nraw:\n"),
+    _edit(RF, "        # verify input arr argument\n        arr = self._cast_input_array(arr)\n\n        # cast global_sample_arr",
+          "        nraw = len(arr)\n        # verify input arr argument\n        arr = self._cast_input_array(arr)\n\n        # cast global_sample_arr"))})
+_A_OLD = '            # create numpy array of all file TS in subdir\n            file_ts_in_subdir = np.arange(\n                sub_ts, sub_ts + self._subdir_cadence_secs, self._file_cadence_secs\n            )\n'
+_PRE_OLD = '        ret_list = []  # ordered list of full file paths to return\n\n        for sub_ts in range(\n            start_sub_ts,'
+_PRE_NEW = '        ret_list = []  # ordered list of full file paths to return\n\n        file_ts_in_subdir = np.arange(\n            start_sub_ts, start_sub_ts + self._subdir_cadence_secs, self._file_cadence_secs\n        )\n        for sub_ts in range(\n            start_sub_ts,'
+_TAIL_OLD = '                ret_list.append(full_file)\n\n        return ret_list\n'
+_TAIL_NEW = '                ret_list.append(full_file)\n            file_ts_in_subdir += self._subdir_cadence_secs\n\n        return ret_list\n'
+_SKIP_NEW = '            if not os.path.isdir(os.path.join(self._metadata_dir, subdir)):\n                continue\n'
+
+
+def _three(*es):
+    def apply(d):
+        for e in es:
+            e(d)
+    return apply
+
+
+V.append({"props": ["C13"], "name": "file-times-carried-past-a-skipped-subdir", "expect": "violation", "rules": ["C13.R7"], "apply": _three(
+    _edit(DM, _A_OLD, _SKIP_NEW), _edit(DM, _PRE_OLD, _PRE_NEW), _edit(DM, _TAIL_OLD, _TAIL_NEW))})
+V.append({"props": ["C13"], "name": "twin-file-times-advanced-every-iteration", "expect": "silent", "rules": [], "apply": _three(
+    _edit(DM, _A_OLD, ""), _edit(DM, _PRE_OLD, _PRE_NEW), _edit(DM, _TAIL_OLD, _TAIL_NEW))})
 
 def for_property(prop):
     return [x for x in V if prop in x["props"]]
